@@ -19,7 +19,6 @@ import (
 	"time"
 
 	btimebase "example.com/scion-time/base/timebase"
-	"example.com/scion-time/core/client"
 	"example.com/scion-time/core/server"
 	"example.com/scion-time/core/timebase"
 	"example.com/scion-time/net/ntp"
@@ -170,7 +169,9 @@ type Handling struct {
 	Rxt64    ntp.Time64
 	Txt064   ntp.Time64
 	Ktx64    ntp.Time64
-	Resp     []byte
+	Resp     []byte // framed for the client
+	NTP      []byte // bare NTP response
+	Meta     *Meta
 	Dst      netip.AddrPort
 	RespPkt  ntp.Packet
 	Sent     bool
@@ -181,7 +182,7 @@ type Net struct {
 	Arrivals   chan Arrival
 	Logs       chan LogRec
 	Done       chan MeasureResult
-	Client     *client.IPClient
+	T          Transport
 	ClientID   string
 	hcount     int
 	Handlings  map[int]*Handling
@@ -197,7 +198,9 @@ type MeasureResult struct {
 	Err error
 }
 
-func NewNet() (*Net, error) {
+func NewNet() (*Net, error) { return NewNetFor("ip") }
+
+func NewNetFor(kind string) (*Net, error) {
 	n := &Net{Arrivals: make(chan Arrival, 64), Logs: make(chan LogRec, 256), Done: make(chan MeasureResult, 4),
 		Handlings: map[int]*Handling{}, stop: make(chan struct{}), Timeout: 150 * time.Millisecond}
 	var err error
@@ -218,7 +221,7 @@ func NewNet() (*Net, error) {
 	}
 	Clock.serverGID.Store(gid())
 	n.ClientID = "client-" + n.N.addr().String()
-	n.Client = &client.IPClient{Log: slog.New(chanHandler{n.Logs}), InterleavedMode: true}
+	n.T = newTransport(kind, n)
 	n.wg.Add(1)
 	go n.readLoop()
 	return n, nil
@@ -254,27 +257,22 @@ func (n *Net) StartMeasure() {
 	go func() {
 		ctx, cancel := context.WithTimeout(context.Background(), n.Timeout)
 		defer cancel()
-		na := n.N.addr()
-		var ts time.Time
-		var off time.Duration
-		var err error
+		var res MeasureResult
 		func() {
 			// a panic of the client (it has no recover of its own) is an observation
 			defer func() {
 				if r := recover(); r != nil {
-					err = fmt.Errorf("PANIC: %v", r)
+					res.Err = fmt.Errorf("PANIC: %v", r)
 					select {
 					case n.Logs <- LogRec{Msg: "client panic", Attrs: map[string]slog.Value{"panic": slog.StringValue(fmt.Sprint(r))}}:
 					default:
 					}
 				}
 			}()
-			ts, off, err = client.MeasureClockOffsetIP(ctx, n.Client.Log, n.Client,
-				&net.UDPAddr{IP: net.ParseIP("127.0.0.1")},
-				&net.UDPAddr{IP: na.Addr().AsSlice(), Port: int(na.Port())})
+			res, _ = n.T.Measure(ctx, n)
 		}()
 		n.calling.Store(false)
-		n.Done <- MeasureResult{ts, off, err}
+		n.Done <- res
 	}()
 }
 
@@ -294,7 +292,11 @@ func (n *Net) ServerRecv(ex int, req []byte, dst netip.AddrPort) (*Handling, err
 		return nil, err
 	}
 	var pkt, resp ntp.Packet
-	if err := ntp.DecodePacket(&pkt, b); err != nil {
+	pl, meta, err := n.T.Unwrap(b)
+	if err != nil {
+		return nil, err
+	}
+	if err := ntp.DecodePacket(&pkt, pl); err != nil {
 		return nil, err
 	}
 	th := n.Theta()
@@ -305,7 +307,7 @@ func (n *Net) ServerRecv(ex int, req []byte, dst netip.AddrPort) (*Handling, err
 	ntp.EncodePacket(&out, &resp)
 	n.hcount++
 	h := &Handling{H: n.hcount, Ex: ex, Theta: th, Rxt: rxt, Txt0: txt, Rxt64: ntp.Time64FromTime(rxt),
-		Txt064: ntp.Time64FromTime(txt), Resp: out, Dst: dst, RespPkt: resp}
+		Txt064: ntp.Time64FromTime(txt), NTP: out, Resp: n.T.Wrap(out, meta, ""), Meta: meta, Dst: dst, RespPkt: resp}
 	n.Handlings[h.H] = h
 	return h, nil
 }
